@@ -226,7 +226,7 @@ func c09Run(c *Ctx) {
 func init() {
 	register(&CheckDef{
 		ID: "C09", Build: "instr", Run: c09Run, RunCase: c09RunCase,
-		Rule: "states = the C02 graph alphabet restricted to entries that hold parameters, responses and path items (inline, imported from documents in other directories, chains over 1-2 documents), schemas pointing back to the root, to their own document and to third documents; executed with SkipSchemas under every map order within 1 deviation; oracles: no parameter/response/path-item $ref left, definitions JSON-identical, every schema $ref kept and designating the same location when read from the root (fragment-only into the root), and full expansion of the skip output equals direct full expansion (bytes when acyclic, bisimilar and cut-point-valid otherwise)",
+		Rule:        "states = the C02 graph alphabet restricted to entries that hold parameters, responses and path items (inline, imported from documents in other directories, chains over 1-2 documents), schemas pointing back to the root, to their own document and to third documents; executed with SkipSchemas under every map order within 1 deviation; oracles: no parameter/response/path-item $ref left, definitions JSON-identical, every schema $ref kept and designating the same location when read from the root (fragment-only into the root), and full expansion of the skip output equals direct full expansion (bytes when acyclic, bisimilar and cut-point-valid otherwise)",
 		Assumptions: []string{"well-formed inputs only", "the cut-point spelling finding of C03 (targets outside the root directory subtree) is judged by C03, not here"},
 		MinOutcomes: 1,
 	})
